@@ -44,8 +44,18 @@ static int do_dec(uint8_t *m, size_t *mlen, const uint8_t *c, size_t clen, const
         { static unsigned flip; flip++; for (unsigned q = 0; q < flip % 3; q++) api_masked_key_randomize(alg, &mk); }
         r = api_masked_dec[alg](m, mlen, c, clen, ad, adlen, n, &mk); api_masked_key_free(alg, &mk); break; }
     case 3: r = api_siv_dec[alg](m, mlen, c, clen, ad, adlen, n, k); break;
-    case 4: { api_isap_key pk; api_isap_init[alg](&pk, k); r = api_isap_dec[alg](m, mlen, c, clen, ad, adlen, n, &pk); api_isap_free[alg](&pk); break; }
-    default: { static unsigned alt; r = (alt++ & 1) ? cpp_decrypt_ctor(fam - 5, alg, k, n, m, c, clen, ad, adlen) : cpp_decrypt(fam - 5, alg, k, n, m, c, clen, ad, adlen); if (r >= 0) { *mlen = (size_t)r; r = 0; } break; }
+    case 4: { api_isap_key pk; api_isap_init[alg](&pk, k);
+        /* every other call decrypts with a key object that was saved and loaded again (the encrypting side always uses the object made by init) */
+        { static unsigned rl; if (rl++ & 1) { uint8_t blob[80]; api_isap_save[alg](&pk, blob); api_isap_free[alg](&pk); memset(&pk, 0x5C, sizeof pk); api_isap_load[alg](&pk, blob); } }
+        r = api_isap_dec[alg](m, mlen, c, clen, ad, adlen, n, &pk); api_isap_free[alg](&pk); break; }
+    default: {  /* C++: raw pointers after set_key, raw pointers after the key constructor, byte_array overloads (two- / three-argument, output array arriving empty / short / long) */
+        static unsigned alt; unsigned v = alt++ & 3; size_t pre = (alt >> 2) % 3 == 0 ? 0 : (alt >> 2) % 3 == 1 ? 7 : clen + 9;
+        r = v == 0 ? cpp_decrypt(fam - 5, alg, k, n, m, c, clen, ad, adlen) : v == 1 ? cpp_decrypt_ctor(fam - 5, alg, k, n, m, c, clen, ad, adlen) : cpp_decrypt_ba(fam - 5, alg, k, n, m, c, clen, ad, adlen, (int)v - 1, pre);
+        if (clen < 18) {    /* around the tag length every form must give the same answer */
+            uint8_t t[8]; int r2[4] = {cpp_decrypt(fam - 5, alg, k, n, t, c, clen, ad, adlen), cpp_decrypt_ctor(fam - 5, alg, k, n, t, c, clen, ad, adlen), cpp_decrypt_ba(fam - 5, alg, k, n, t, c, clen, ad, adlen, 1, pre), cpp_decrypt_ba(fam - 5, alg, k, n, t, c, clen, ad, adlen, 2, pre)};
+            for (int q = 0; q < 4; q++) if (r2[q] != r) { hx_fail(keybase, "C++ decrypt forms disagree on a %zu-byte packet: form %d returns %d, form %u returned %d", clen, q, r2[q], v, r); break; }
+        }
+        if (r >= 0) { *mlen = (size_t)r; r = 0; } break; }
     }
     return r;
 }
